@@ -60,6 +60,23 @@ def rename(spec, rng):
     return gen.GSpec(rules, {tm[k]: v for k, v in spec.terms.items()})
 
 
+# grammars split over files whose terminals have the same local names (the fully qualified name is the
+# only thing that distinguishes them in the final tie-break of the action sort)
+MODULAR = [
+    {"root": "main.pg", "inputs": ["q,x", "q;y", "q.", "q!", "q"],
+     "files": {"main.pg": "import 'l.pg' as l;\nimport 'r.pg' as r;\nS: X l.SEP 'x' | X r.SEP 'y' | X l.END | X r.END;\nX: 'q';\n",
+               "l.pg": "L: SEP END;\nterminals\nSEP: ',';\nEND: /\\./;\n",
+               "r.pg": "R: SEP END;\nterminals\nSEP: ';';\nEND: /!/;\n"}},
+    {"root": "main.pg", "inputs": ["a+b", "a-b", "a", "ab"],
+     "files": {"main.pg": "import 'm1.pg' as m1;\nimport 'm2.pg' as m2;\nS: A m1.OP A | A m2.OP A | A;\nA: m1.ID | m2.ID;\n",
+               "m1.pg": "X: ID OP;\nterminals\nOP: '+';\nID: /a/;\n",
+               "m2.pg": "X: ID OP;\nterminals\nOP: '-';\nID: /b/;\n"}},
+    {"root": "main.pg", "inputs": ["kxk", "kyk", "kk"],
+     "files": {"main.pg": "import 'p.pg' as p;\nimport 'q.pg' as q;\nS: K p.T K | K q.T K | K K;\nK: 'k';\n",
+               "p.pg": "P: T;\nterminals\nT: 'x';\n", "q.pg": "Q: T;\nterminals\nT: 'y';\n"}},
+]
+
+
 def units(tier):
     rng = random.Random(seed())
     specs = list(gen.enum_grammars(2, 2, 3, 2))[:: (12 if tier == "quick" else 2)]
@@ -74,8 +91,11 @@ def units(tier):
         if len(s.nonterminals()) <= len(NAMES) - 1 and len(s.terms) <= 5:
             out.append(rename(s, rng))
     seeds = [0, 1, 2, 3, 17, 4242] if tier == "quick" else list(range(0, 32))
-    return [{"specs": [s.to_json() for s in ch], "seeds": seeds, "seed": seed() * 1000 + i}
-            for i, ch in enumerate(chunks(out, 24))]
+    us = [{"specs": [s.to_json() for s in ch], "seeds": seeds, "seed": seed() * 1000 + i}
+          for i, ch in enumerate(chunks(out, 24))]
+    us.append({"specs": [], "modular": True, "seeds": list(range(12)) if tier == "quick" else list(range(32)),
+               "seed": seed()})
+    return us
 
 
 def run_unit(u):
@@ -86,8 +106,10 @@ def run_unit(u):
     for sj in u["specs"]:
         spec = gen.GSpec.from_json(sj)
         cases.append({"grammar": spec.text(), "inputs": list(gen.token_strings(spec, 4))[:25]})
+    if u.get("modular"):
+        cases = [dict(c, grammar=json.dumps(c["files"], sort_keys=True)) for c in MODULAR]
     # in-process: implementation table == model table (the model is a function of the grammar)
-    for c in cases:
+    for c in ([] if u.get("modular") else cases):
         try:
             g = Grammar.from_string(c["grammar"])
         except Exception as e:
